@@ -26,6 +26,7 @@ func main() {
 	out := flag.String("out", "trace.ndjson", "trace output")
 	seed := flag.Int64("seed", 1, "seed")
 	random := flag.Int("random", 0, "generate this many seeded random cases instead of reading -in")
+	base := flag.Int("base", 0, "index of the first case (indices select builder/raw storage and seed per-case choices)")
 	verbose := flag.Bool("v", false, "perkeep logs to stderr")
 	flag.Parse()
 	if !*verbose {
@@ -67,7 +68,7 @@ func main() {
 		}
 		for i, t := range trees {
 			curCase = fmt.Sprintf("tree %d", i)
-			runTree(lg, i, t, *seed)
+			runTree(lg, *base+i, t, *seed)
 		}
 		n = len(trees)
 	case "writer":
@@ -85,7 +86,7 @@ func main() {
 		}
 		for i, c := range cases {
 			curCase = fmt.Sprintf("wcase %d %+v", i, c)
-			runWCase(lg, i, c, *seed)
+			runWCase(lg, *base+i, c, *seed)
 		}
 		n = len(cases)
 	case "dirs":
@@ -103,7 +104,7 @@ func main() {
 		}
 		for i, c := range cases {
 			curCase = fmt.Sprintf("dcase %d %+v", i, c)
-			runDCase(lg, i, c)
+			runDCase(lg, *base+i, c)
 		}
 		n = len(cases)
 	default:
